@@ -364,6 +364,50 @@ pub fn op_log(s: String) {
     with(|c| c.oplog.push(s))
 }
 
+/// Write the decision trail of the running path to a per-thread file. Called right before a
+/// phase in which a double panic could abort the process (injected crash, final drop), so that
+/// the wrapper script can find and re-run the culprit in a child process.
+pub fn mark_inflight(scenario: &str) {
+    let line = with(|c| {
+        let t: Vec<String> = c.trail.iter().map(|d| match d {
+            Dec::Bool { taken, .. } => format!("{{\"b\":{taken}}}"),
+            Dec::Choose { taken, n, rot } => format!("{{\"c\":{taken},\"n\":{n},\"rot\":{rot}}}"),
+        }).collect();
+        format!("{{\"scenario\":\"{}\",\"trail\":[{}],\"ops\":{:?}}}", scenario, t.join(","), c.oplog)
+    });
+    use std::io::{Seek, SeekFrom, Write};
+    thread_local! {
+        static INFLIGHT: RefCell<Option<std::fs::File>> = RefCell::new(None);
+    }
+    INFLIGHT.with(|f| {
+        let mut f = f.borrow_mut();
+        if f.is_none() {
+            let dir = std::env::var("SYMX_INFLIGHT_DIR").unwrap_or_default();
+            if dir.is_empty() {
+                return;
+            }
+            let path = format!("{dir}/{}-{:?}.json", std::process::id(), std::thread::current().id()).replace("ThreadId(", "t").replace(')', "");
+            *f = std::fs::File::create(path).ok();
+        }
+        if let Some(file) = f.as_mut() {
+            // one record, padded so that a shorter record fully overwrites a longer one
+            let mut rec = line.into_bytes();
+            rec.push(b'\n');
+            if rec.len() < 4096 {
+                rec.resize(4096, b' ');
+            }
+            let _ = file.seek(SeekFrom::Start(0));
+            let _ = file.write_all(&rec);
+        }
+    });
+}
+
+/// Symbolic re-execution of one trail (no exploration): used to confirm an abort in isolation.
+pub fn run_trail(scn: &dyn Scenario, trail: Vec<Dec>) -> PathResult {
+    let (r, _) = run_path_inner(scn, Mode::Sym, Some(Solver::new(false)), trail, None, 0, false);
+    r
+}
+
 pub fn note_panic(msg: String) {
     with(|c| c.last_panic = Some(msg))
 }
